@@ -97,7 +97,12 @@ Definition clause (c : case) : bool :=
   | 2%N =>
       match c_t1 c with
       | None => negb (N.eqb (c_st1 c) 2)
-      | Some _ => existsb has_pe (c_a c) || existsb has_pe (c_b c) || (N.eqb (c_f1 c) 1 && N.eqb (c_f2 c) 1)
+      | Some _ =>
+          (* judged only where the implementation's is-superselector is a complete test: operands without
+             combinators and without pseudo-elements (with combinators it misses e.g. `a > c` >= `a > b + c`) *)
+          existsb has_pe (c_a c) || existsb has_pe (c_b c)
+          || existsb is_complex (c_a c) || existsb is_complex (c_b c)
+          || (N.eqb (c_f1 c) 1 && N.eqb (c_f2 c) 1)
       end
   | 3%N =>
       match c_t1 c with
